@@ -153,6 +153,7 @@ struct Pool {
   }
   std::string prop_for(const std::string &op) const {
     if (op.compare(0, 8, "widening") == 0 || op == "narrowing") return "C05";
+    if (op == "normalize" || op == "minimize" || op == "queries") return "C16";
     if (op == "join" || op == "meet" || op == "join-inplace" || op == "meet-inplace" || op == "leq") return "C04";
     return "C03";
   }
@@ -204,6 +205,30 @@ struct Pool {
       return;
     }
     auto V = [&](int v) { return B->vars[v]; };
+    if (op >= 37 && op < 39 && r.coin()) { // C16: read-only queries, normalize(), minimize() keep every witness inside
+      int q = r.below(4);
+      lastop = q == 0 ? "normalize" : q == 1 ? "minimize" : "queries";
+      note("A" + std::to_string(i) + "." + lastop + "()");
+      if (q == 0) A[i].normalize();
+      else if (q == 1) A[i].minimize();
+      else {
+        int v = any_int();
+        (void)A[i].is_bottom();
+        (void)A[i].is_top();
+        (void)A[i].at(V(v));
+        (void)A[i][V(v)];
+        try {
+          (void)A[i].to_linear_constraint_system();
+          (void)A[i].to_disjunctive_linear_constraint_system();
+        } catch (crab::verif_error &e) {
+        }
+        (void)A[i].entails(z_lin_cst_t(z_lin_exp_t(V(v)) - z_number((long)r.range(-5, 5)), z_lin_cst_t::INEQUALITY));
+        (void)(A[i] <= A[j]);
+      }
+      ctx.count("query_or_normalize_steps");
+      check(i);
+      return;
+    }
     if (op < 5 && r.chance(1, 4)) { // box: finite bounds on every variable around a fresh small state
       lastop = "box";
       CState s = rand_state(), s2;
